@@ -8,12 +8,23 @@ The scratch worktree is removed at the end."""
 import json, os, shutil, subprocess, sys, tempfile
 HERE = os.path.dirname(os.path.dirname(os.path.abspath(__file__)))
 pid, which = sys.argv[1].upper(), sys.argv[2]
-extra_props = [a.upper() for a in sys.argv[3:] if not a.startswith("--")]
-src = "/tmp/seeded-out/%s" % pid
+opts = {}
+rest = sys.argv[3:]
+extra_props = []
+i = 0
+while i < len(rest):
+    if rest[i] in ("--src", "--name"):
+        opts[rest[i][2:]] = rest[i + 1]
+        i += 2
+    else:
+        extra_props.append(rest[i].upper())
+        i += 1
+name = opts.get("name", which)
+src = "%s/%s" % (opts.get("src", "/tmp/seeded-out"), pid)
 diff = os.path.join(src, which + ".diff")
 demo = os.path.join(src, which + "_demo.py")
 meta_in = os.path.join(src, which + ".json")
-wt = tempfile.mkdtemp(prefix="ev-%s%s-" % (pid, which), dir="/tmp")
+wt = tempfile.mkdtemp(prefix="ev-%s%s-" % (pid, name), dir="/tmp")
 os.rmdir(wt)
 
 
@@ -46,7 +57,7 @@ try:
                             and out["demo_without_change_exit"] == 0 and not out["touches_tests"])
     checks = {}
     for p in [pid] + extra_props:
-        r = sh("%s/tools/with_mutant %s %s --tier quick" % (HERE, diff, p), timeout=3600)
+        r = sh("%s/tools/with_mutant %s %s --tier quick" % (HERE, diff, p), timeout=5400)
         lines = [l for l in r.stdout.splitlines() if l.startswith(("violation:", "VIOLATION", "done", "HARNESS"))]
         checks[p] = {"detected": ("VIOLATION property=%s" % p) in r.stdout, "harness_error": "HARNESS-ERROR" in r.stdout,
                      "oracles": sorted({l.split("oracle=")[1].split(" ")[0] for l in lines if l.startswith("violation:")}),
@@ -57,7 +68,7 @@ finally:
     shutil.rmtree(wt, ignore_errors=True)
 print(json.dumps(out, indent=1))
 if out.get("confirmed"):
-    dst = os.path.join(HERE, "seeded", "%s-%s" % (pid, which))
+    dst = os.path.join(HERE, "seeded", "%s-%s" % (pid, name))
     os.makedirs(dst, exist_ok=True)
     shutil.copy(diff, os.path.join(dst, "patch.diff"))
     shutil.copy(demo, os.path.join(dst, "demo.py"))
